@@ -1,4 +1,5 @@
 import SslModel.Model.Spec
+import SslModel.Model.Check
 import SslModel.Lemmas.TyTrans
 import SslModel.Thm.C06
 /-!
@@ -221,23 +222,7 @@ theorem seq_cons (f : Nat) (env : Env) (s s2 : Expr) (rest : List Expr) :
 section coverage
 open Ssl.Ty
 
-/-- what the checker knows about an arm (`MatchArm::is_covering_type`) -/
-inductive ArmKind where
-  | value            -- `v1, v2 => ..`: never counted as covering
-  | other            -- `=> ..`
-  | ty (t : Ty)      -- `x: T => ..`
-
-/-- `MatchArm::is_covering_type` on a non-union type; at run time (`MatchArm::covers`) the same test is
-    applied to the scrutinee's run-time type -/
-def armCovers : ArmKind → Ty → Bool
-  | .value, _ => false
-  | .other, _ => true
-  | .ty a, t => sub t a
-
-/-- `Match::is_covering_type`: a union is covered member by member -/
-def covering (arms : List ArmKind) : Ty → Bool
-  | .multi ms => ms.all fun m => arms.any (armCovers · m)
-  | t => arms.any (armCovers · t)
+open Ssl.Check
 
 /-- **an accepted match always has an arm for the value it meets**: if the arms cover the static type `T`
     of the scrutinee, then for every run-time type `R` below `T` (run-time types are never unions or `!`)
